@@ -189,7 +189,7 @@ package paths
 //@ spec isResolverFn(f int) bool = f == fn("(*relativePathsResolver).absContextPath") || f == fn("(*relativePathsResolver).absPath") || f == fn("(*relativePathsResolver).absExtendsPath") || f == fn("(*relativePathsResolver).absSymbolicLink") || f == fn("(*relativePathsResolver).absVolumeMount") || f == fn("(*relativePathsResolver).maybeUnixPath") || f == fn("(*relativePathsResolver).volumeDriverOpts")
 
 //@ func (*relativePathsResolver).resolveRelativePaths
-//@   except precondition#13, precondition#3 : undischarged on the reference tree (engine limit or missing callee contract), not claimed
+//@   except precondition@a28490#3, precondition@251b17#3 : undischarged on the reference tree (engine limit or missing callee contract), not claimed
 //@   nopanic[C01,C12]
 //@   assigns below(value)
 //@   requires[C12] forall k string :: has(r.resolvers, k) <==> resolverKey(k)
